@@ -2,6 +2,7 @@ package an
 
 import (
 	"fmt"
+	"go/token"
 	"go/types"
 	"strings"
 
@@ -455,19 +456,15 @@ func runC18(p *Prog, r *Report) {
 									if !strings.Contains(strings.ToLower(NormAtom(a.Cond, a.Pol)), "besteffort") {
 										continue
 									}
-									if refs := a.Cond.Referrers(); refs != nil {
-										for _, u := range *refs {
-											if iff, isIf := u.(*ssa.If); isIf && iff.Block() != nil && iff.Block().Dominates(sel.Block()) {
-												same = true
-											}
-										}
+									if readsBeforeWait(a.Cond, sel, 0) {
+										same = true
 									}
 								}
 								if same {
 									continue
 								}
 								okArm = false
-								badArm = fmt.Sprintf("returns nil at %s under a second reading of the best-effort option: when the option is switched on while the call is blocked on its deadline, the call drops the message and reports success instead of returning %s", p.InstrPos(ret), terr)
+								badArm = fmt.Sprintf("returns nil at %s under a reading of the best-effort option made after the wait: when the option is switched on while the call is blocked on its deadline, the call drops the message and reports success instead of returning %s", p.InstrPos(ret), terr)
 								continue
 							}
 							okArm = false
@@ -784,4 +781,54 @@ func guardAtomsOfBlock(b *ssa.BasicBlock) []string {
 		}
 	}
 	return out
+}
+
+// readsBeforeWait: every field load and call that v is computed from is evaluated before the
+// select (in a block that dominates it, or earlier in its own block), so the value is the one
+// the call started with and not a second look at the option after the wait.
+func readsBeforeWait(v ssa.Value, sel *ssa.Select, depth int) bool {
+	if depth > 6 {
+		return false
+	}
+	before := func(in ssa.Instruction) bool {
+		b := in.Block()
+		if b == nil {
+			return false
+		}
+		if b == sel.Block() {
+			for _, i := range b.Instrs {
+				if i == in {
+					return true
+				}
+				if i == ssa.Instruction(sel) {
+					return false
+				}
+			}
+			return false
+		}
+		return b.Dominates(sel.Block())
+	}
+	switch x := v.(type) {
+	case *ssa.Const, *ssa.Parameter, *ssa.Global, *ssa.FreeVar:
+		return true
+	case *ssa.Call:
+		return before(x)
+	case *ssa.UnOp:
+		if x.Op == token.MUL || x.Op == token.ARROW {
+			return before(x)
+		}
+		return readsBeforeWait(x.X, sel, depth+1)
+	case *ssa.BinOp:
+		return readsBeforeWait(x.X, sel, depth+1) && readsBeforeWait(x.Y, sel, depth+1)
+	case *ssa.Phi:
+		for _, e := range x.Edges {
+			if !readsBeforeWait(e, sel, depth+1) {
+				return false
+			}
+		}
+		return before(x)
+	case ssa.Instruction:
+		return before(x)
+	}
+	return false
 }
